@@ -1024,6 +1024,8 @@ scanAgain:
 			insertSemi = true
 		case '$':
 			tok = token.ENV
+		case '~':
+			tok = token.TILDE
 		default:
 			// next reports unexpected BOMs - don't repeat
 			if ch != bom {
